@@ -51,8 +51,8 @@ class Server:
     """The real front end: one BatchWorld; requests become tasks advanced transaction by transaction."""
 
     def __init__(self, name, seed):
-        import aiomysql
         from vlib.batchenv import BatchWorld
+        import aiomysql
 
         self.cfg = CONFIGS[name]
         self.aiomysql = aiomysql
@@ -186,9 +186,8 @@ def apply_label(srv: Server, lab, src, dst):
         srv.deliver(r, dst["ndeliv"][args[0]])
         return None
     if name == "Step":
-        h = args[0]
-        r = {k: (str(v) if isinstance(v, (str, tlaval.Sym)) else v) for k, v in h["req"].items()}
-        return srv.step(r, h["n"])
+        r = {k: (str(v) if isinstance(v, (str, tlaval.Sym)) else v) for k, v in args[0].items()}
+        return srv.step(r, args[1])
     if name == "Client":
         return None
     raise RuntimeError(name)
@@ -269,7 +268,7 @@ def run(ctx):
             raise RuntimeError(f"vacuous: {acts}")
         walks = walk.cover_walks(g, rng=random.Random(ctx.seed))
         random.Random(ctx.seed).shuffle(walks)
-        deadline = time.time() + (40 if quick else 400)
+        deadline = time.time() + (30 if quick else 400)
         covered = set()
         for wk in walks:
             if time.time() > deadline:
